@@ -8,6 +8,7 @@ import (
 	"fmt"
 	"math/rand"
 	"reflect"
+	"sort"
 	"strings"
 	"time"
 
@@ -250,6 +251,35 @@ func (w *gworld) toGo(g *gv) any {
 		return out
 	}
 	panic("toGo " + g.K)
+}
+
+// prebuild (share mode): builds every slice that occurs in the given descriptions, longest first, so that a shorter list
+// aliases the backing array of a longer one with the same leading elements WHEREVER the two occur - also when the shorter
+// one comes first in the term.
+func (w *gworld) prebuild(ts ...*gv) {
+	if !w.share {
+		return
+	}
+	var all []*gv
+	var collect func(g *gv)
+	collect = func(g *gv) {
+		if g == nil {
+			return
+		}
+		for _, f := range g.F {
+			collect(f)
+		}
+		if g.K == "slice" && len(g.F) > 0 {
+			all = append(all, g)
+		}
+	}
+	for _, t := range ts {
+		collect(t)
+	}
+	sort.SliceStable(all, func(i, j int) bool { return len(all[i].F) > len(all[j].F) })
+	for _, g := range all {
+		w.toGo(g)
+	}
 }
 
 // fromGo reads a Go value back into a description; pointers that are placeholders of this world are variables.
